@@ -85,6 +85,14 @@ CLAIMED['C18'] = ('enabledness of SqlExec CreateTable (inline FOREIGN KEY target
                   'the property is not a special rule but the enabling condition of a catalog action; the pinned as-built heuristic is a named '
                   'deviation whose predicted order must be matched exactly, so any other misplacement is reported',
                   SQLNOTE, 'DESIGN.md 2.6, 5 (C18), 7')
+CLAIMED['C10'] = ('Edits.tla: edit histories chosen by TLC over generated databases and applied to the real objects; projection after '
+                  'every edit validated by TLC against ApplyEdit; final .dbml/.sql of the edited database and of every element compared '
+                  'with a database freshly built from the final model (TraceEdits.tla)',
+                  '18 kinds of in-place edit are transitions of the model whose links are positions; TLC binds the edit semantics step '
+                  'by step and requires byte-identical renderings of edited vs fresh objects, with and without rendering before/between '
+                  'the edits (caches)',
+                  'trusted: TLC, pv/builder.py (fresh build), pv/project.py',
+                  'DESIGN.md 5 (C10)')
 NOT_YET = {}
 
 def main():
